@@ -102,7 +102,10 @@ pub enum Ev {
 	/// a visit caused by one attribute; raw = the bytes handed over verbatim (unknown attributes, SourceDebugExtension)
 	Attr { name: String, raw: Option<Vec<u8>>, content: String },
 	Flags(bool, bool),
-	Deferred { slot: &'static str, content: String },
+	/// a table collected over the attribute loop and visited after it; one item per entry with the
+	/// attribute kind it comes from (0 LineNumberTable, 1 LocalVariableTable, 2 LocalVariableTypeTable);
+	/// `optional` is only set by the projection oracle (an empty table may or may not be visited)
+	Deferred { slot: &'static str, items: Vec<(u8, String)>, optional: bool },
 	CodeDeclined,
 	Code { max_stack: u16, max_locals: u16, insns: Vec<Insn>, last_label: bool, exc: String, es: Vec<Ev> },
 	Rc { hdr: String, es: Option<Vec<Ev>> },
@@ -377,8 +380,15 @@ impl CodeVisitor for RecCode {
 		Ok(())
 	}
 	fn visit_last_label(&mut self, last_label: Label) -> Result<()> { self.last = Some(last_label); Ok(()) }
-	fn visit_line_numbers(&mut self, x: Vec<(Label, u16)>) -> Result<()> { self.es.push(Ev::Deferred { slot: "line_number_table", content: format!("{x:?}") }); Ok(()) }
-	fn visit_local_variables(&mut self, x: Vec<Lv>) -> Result<()> { self.es.push(Ev::Deferred { slot: "local_variable_table", content: format!("{x:?}") }); Ok(()) }
+	fn visit_line_numbers(&mut self, x: Vec<(Label, u16)>) -> Result<()> {
+		self.es.push(Ev::Deferred { slot: "line_number_table", items: x.iter().map(|e| (0, format!("{e:?}"))).collect(), optional: false });
+		Ok(())
+	}
+	fn visit_local_variables(&mut self, x: Vec<Lv>) -> Result<()> {
+		// the reader builds one entry per LocalVariableTable row (descriptor) and one per LocalVariableTypeTable row (signature)
+		self.es.push(Ev::Deferred { slot: "local_variable_table", items: x.iter().map(|e| (if e.descriptor.is_some() { 1 } else { 2 }, format!("{e:?}"))).collect(), optional: false });
+		Ok(())
+	}
 	fn visit_type_annotations(self, visible: bool) -> Result<(Self::TypeAnnotationsResidual, Self::TypeAnnotationsVisitor)> { Ok(((self, visible), Vec::new())) }
 	fn finish_type_annotations((mut this, visible): Self::TypeAnnotationsResidual, v: Self::TypeAnnotationsVisitor) -> Result<Self> {
 		this.es.push(attr(vis(visible, "RuntimeVisibleTypeAnnotations", "RuntimeInvisibleTypeAnnotations"), format!("{v:?}")));
@@ -398,7 +408,7 @@ impl RecCode {
 		let insns = self.insns.iter().map(|(l, f, t)| Insn { label: l.is_some(), frame: f.as_ref().map(|f| fix(f)), text: fix(t) }).collect();
 		let es = self.es.into_iter().map(|e| match e {
 			Ev::Attr { name, raw, content } => Ev::Attr { name, raw, content: fix(&content) },
-			Ev::Deferred { slot, content } => Ev::Deferred { slot, content: fix(&content) },
+			Ev::Deferred { slot, items, optional } => Ev::Deferred { slot, items: items.into_iter().map(|(k, t)| (k, fix(&t))).collect(), optional },
 			e => e,
 		}).collect();
 		Ev::Code { max_stack: self.max.0, max_locals: self.max.1, insns, last_label: self.last.is_some(), exc: fix(&self.exc), es }
